@@ -41,7 +41,7 @@ pub fn all_ops() -> Vec<EOp> {
     for s in 0..4 {
         v.push(EOp::AddFunc(s, 0));
     }
-    for b in 1..7 {
+    for b in 1..9 {
         v.push(EOp::AddFunc(0, b));
     }
     v.push(EOp::AddFunc(1, 1));
@@ -80,6 +80,35 @@ pub fn all_ops() -> Vec<EOp> {
 /// operations that only add something
 fn additive(op: &EOp) -> bool {
     matches!(op, EOp::AddFunc(..) | EOp::ExportNewestFunc | EOp::ExportFirst(_) | EOp::AddImport(_) | EOp::AddGlobal(_) | EOp::AddData(_) | EOp::AddElem(_))
+}
+
+/// operations that use nothing beyond the MVP when applied to a module that has one memory and one
+/// table (see `mvp_bases`): used by C20's oracle "MVP-shaped edits keep an MVP module MVP"
+fn mvp_safe(op: &EOp, has_mem_and_table: bool) -> bool {
+    match op {
+        EOp::AddFunc(s, b) => *s <= 2 && matches!(b, 0 | 1 | 2 | 3 | 7 | 8),
+        EOp::ExportNewestFunc | EOp::ExportFirst(1) | EOp::ExportFirst(2) => true,
+        EOp::AddImport(0) | EOp::AddImport(1) => true,
+        EOp::AddGlobal(0) | EOp::AddGlobal(1) => true,
+        EOp::AddData(1) | EOp::AddElem(2) => has_mem_and_table,
+        EOp::DeleteFirstExport | EOp::DeleteNewestUnreferenced | EOp::ReplaceImported(_) | EOp::ReplaceExported(_) | EOp::SetStart | EOp::ClearStart | EOp::Gc | EOp::GrowBody(_) | EOp::BumpConsts => true,
+        _ => false,
+    }
+}
+
+pub fn mvp_bases() -> Vec<(String, Vec<u8>)> {
+    vec![
+        ("mvp:empty".into(), b"\0asm\x01\0\0\0".to_vec()),
+        (
+            "mvp:one-of-everything".into(),
+            wgen::stateful::assemble(
+                r#"(module (type $r (func (result i32))) (type $v (func)) (import "env" "f" (func $if (param i32))) (table 2 funcref) (memory 1) (global $g i32 (i32.const 1))
+                 (func $a (type $r) (i32.const 1)) (func $vv (type $v)) (func (export "run") (call $vv) (drop (call $a)) (call $if (global.get $g)))
+                 (elem (i32.const 0) $a) (data (i32.const 0) "x"))"#,
+            )
+            .unwrap(),
+        ),
+    ]
 }
 
 struct Bump;
@@ -206,11 +235,14 @@ fn apply_op(o: &mut EObj, op: &EOp) {
                     1 => {
                         if let Some(c) = callee {
                             fb.call(c);
+                            // the callee may be a function this history added: it is referenced now
+                            o.unreferenced.retain(|a| !matches!(a, Added::Func(x) if *x == c));
                         }
                     }
                     2 => {
                         if let Some(g) = g {
                             fb.global_get(g).drop();
+                            o.unreferenced.retain(|a| !matches!(a, Added::Global(x) if *x == g));
                         }
                     }
                     3 => {
@@ -229,6 +261,18 @@ fn apply_op(o: &mut EObj, op: &EOp) {
                         fb.i32_const(k).block(bt, |b| {
                             b.i32_const(1).binop(ir::BinaryOp::I32Add);
                         }).drop();
+                    }
+                    7 => {
+                        // block types MVP can express, made through the public constructor
+                        let bt = ir::InstrSeqType::new(&mut m.types, &[], &[ValType::I32]);
+                        fb.block(bt, |b| {
+                            b.i32_const(k);
+                        })
+                        .drop();
+                    }
+                    8 => {
+                        let bt = ir::InstrSeqType::new(&mut m.types, &[], &[]);
+                        fb.i32_const(k).if_else(bt, |t| { t.i32_const(1).drop(); }, |e| { e.i32_const(2).drop(); });
                     }
                     6 => {
                         // two parameters in, two results out of an if/else
@@ -460,6 +504,10 @@ impl<'a> Subject for EditSubject<'a> {
         parse(self.wasm, &Cfg::default()).map(|m| EObj { m, serial: 0, unreferenced: vec![], newest_func: None }).map_err(|f| f.detail())
     }
     fn ops(&self, _h: &[EOp]) -> Vec<EOp> {
+        if self.oracle == "C20" {
+            let has = self.wasm.len() > 8;
+            return all_ops().into_iter().filter(|op| mvp_safe(op, has)).collect();
+        }
         all_ops()
     }
     fn apply(&self, o: &mut EObj, op: &EOp, _at: usize) -> Result<(), Finding> {
@@ -530,6 +578,25 @@ impl<'a> Subject for EditSubject<'a> {
                             }
                         }
                     }
+                }
+            }
+            return (wmodel::fnv(&out), fs);
+        }
+        if self.oracle == "C20" {
+            let has = self.wasm.len() > 8;
+            // once gc ran the memory / table may be gone, and the model's AddData / AddElem fall back to passive segments
+            let mut gone = false;
+            let mut safe = true;
+            for op in hist {
+                safe &= mvp_safe(op, has && !gone);
+                gone |= *op == EOp::Gc;
+            }
+            if safe && wmodel::validate214(&out, wmodel::FeatureSet::DEFAULT).is_ok() {
+                if let Err(e) = wmodel::validate214(&out, wmodel::FeatureSet::MVP) {
+                    fs.push(Finding {
+                        sig: format!("mvp-edit-escalates:{}", crate::props::validity::norm_verr(&e)),
+                        detail: format!("an MVP module edited with MVP-shaped operations {:?} no longer validates as MVP: {}", hist, e),
+                    });
                 }
             }
             return (wmodel::fnv(&out), fs);
@@ -621,7 +688,7 @@ pub fn run_model_as(oracle: &'static str, args: &Args, ev: &mut Ev) -> Vec<Viola
         (_, Tier::Quick) | ("C08", Tier::Thorough) => 3,
         _ => 4,
     };
-    let bs = bases();
+    let bs = if oracle == "C20" { mvp_bases() } else { bases() };
     let (res, _) = pmap(&bs, args.threads, None, |(_, wasm)| {
         let s = EditSubject::new(wasm, oracle);
         explore(&s, depth)
